@@ -169,6 +169,17 @@ def seq_enumerated():
     T('shadow-exit-bare-block', "sleep(sb(x)); sleep(g);", extra="int sb(int v) { while (true) { { byte gb = 'q'; int g = v; if (g > 0) { break; } } g += 1; gb = 9; break; } g += 5; write(gb); return g; }\n")
     T('shadow-exit-try', "sleep(@st(x)); sleep(g);", extra="int @st(int v) { for (int i = 0; i < 2; i += 1) { try { int g = v; !truth_is_defeat(g > 5); if (g > 0) { continue; } } undo { int g = 70; sleep(g); break; } g += 3; } g += 20; return g; }\n")
     T('shadow-param-and-nested', "sleep(sp(x, y)); sleep(g); sleep(K);", extra="int sp(int g, int K) { if (g > K) { return g + K; } g += 1; { int q = 2; g += q; } return g * K; }\n")
+    # constants narrowed to byte at compile time and widened or compared again (truncation must happen where the cast is)
+    T('const-cast-chain', "sleep((300 is byte) is int); sleep((-1 is byte) is int); sleep(CM + 0); sleep(((K + 300) is byte) is int); if ((300 is byte) == 44) { write('y'); } else { write('n'); } "
+      "byte q = 511 is byte; sleep(q); sleep((CM is int) * 2); sleep(((256 + x) is byte) is int); write(CM); write(300 is byte); if (CM > 200) { write('G'); } sleep((KB is int) + (('a' is int) is byte));",
+      extra='const byte CM = -1;\n')
+    T('const-cast-narrow-init', "byte m = -1; sleep(m); const byte c = 300; sleep(c); byte[] a = [257, -2, x is byte]; sleep(a[0]); sleep(a[1]); gb = 258; sleep(gb); sleep(bf(259));")
+    # dynamic arrays whose length comes from every kind of place, followed by another allocation, written at their last element
+    for el, val, obs in (('int', 'x', 'sleep(a[n - 1]);'), ('byte', "'z'", 'write(a[n - 1]);'), ('bool', 'x > y', 'sleep(a[n - 1] is int);'), ('string', '"s"', 'write(a[n - 1]);')):
+        for lname, setup, lexp in (('global', 'glen = 11;', 'glen'), ('global-expr', 'glen = 11;', 'glen + 0'), ('local', 'int ln = 11;', 'ln'), ('literal', '', '11'), ('const', '', 'K'),
+                                   ('param', '', 'x % 4 + 9'), ('global-13', 'glen = 13;', 'glen')):
+            T('vla-%s-len-%s' % (el, lname), "%s %s a[%s]; int n = a.length; int[] b = [x, y, 7]; a[n - 1] = %s; a[0] = %s; b[0] += 1; sleep(n); %s sleep(b[0]); sleep(b[2]);" % (setup, el, lexp, val, val, obs),
+              extra='int glen = 3;\n')
     return out
 
 
@@ -365,6 +376,36 @@ def seq_random(seed, n):
     return out
 
 
+
+# --------------------------------------------------------------------------------------
+# every operator in every position (C01, C03, C15; C09 decides the values against bit-vector formulas)
+# --------------------------------------------------------------------------------------
+def op_positions():
+    out = []
+    pre = "int keep(int v) { return v; }\n"
+
+    def T(name, body, sig='int a, int b'):
+        out.append(C('oppos/' + name, pre + 'empty @is_you(%s) {\n%s\n}\n' % (sig, body)))
+    cmps = {'lt': '<', 'le': '<=', 'gt': '>', 'ge': '>=', 'eq': '==', 'ne': '!='}
+    for n, op in cmps.items():
+        T('if-' + n, "if (a %s b) { write('t'); } else { write('f'); } write('.');" % op)
+        T('if-const-' + n, "if (a %s -1) { write('t'); } else { write('f'); } if (0 %s b) { write('T'); } write('.');" % (op, op))
+        T('while-' + n, "int k = 0; while (a %s b) { write('w'); k += 1; if (k > 1) { break; } a = b; } write('.');" % op)
+        T('value-' + n, "bool t = a %s b; sleep(t is int); sleep(keep((b %s a) is int));" % (op, op))
+        T('not-' + n, "if (not (a %s b)) { write('n'); } else { write('y'); } bool t = not (b %s a); sleep(t is int);" % (op, op))
+        T('andor-' + n, "if (a %s b and b %s 3 or a %s 0) { write('t'); } else { write('f'); } write('.');" % (op, op, op))
+        T('byte-' + n, "if (p %s a) { write('t'); } else { write('f'); } bool t = p %s q; sleep(t is int); if (p %s 200) { write('u'); }" % (op, op, op), sig='byte p, byte q, int a')
+        T('for-' + n, "for (int i = a %% 3; i %s b %% 3 + 1; i += 1) { write('i'); if (i > 3) { break; } } write('.');" % op)
+    for n, op in (('add', '+'), ('sub', '-'), ('mul', '*'), ('div', '/'), ('mod', '%')):
+        T('arith-' + n, "sleep(a %s b); int c = a; c %s= b; sleep(c); sleep(keep(a) %s keep(b));" % (op, op, op))
+        T('arith-byte-' + n, "sleep(p %s q); byte r = (p %s q) is byte; write(r); sleep(p %s a);" % (op, op, op), sig='byte p, byte q, int a')
+    T('unary', "sleep(-a); sleep(+a); sleep((not a) is int); sleep(-(-b)); sleep((not (not b)) is int); if (not a) { write('z'); }")
+    T('casts', "sleep((a is byte) is int); sleep((a is bool) is int); sleep(((a is bool) is byte) is int); write(a is byte); if (a is bool) { write('t'); } if ((a is byte) is bool) { write('u'); }")
+    T('write-int', "write(a); write('.');")
+    T('writeln-int-bool', "writeln(a > b); writeln(b); write('.');")
+    T('write-str-arg', "write(s); writeln(s); write(s[0]); sleep(s.length);", sig='string s')
+    return out
+
 # --------------------------------------------------------------------------------------
 # T-time: time travel (C02)
 # --------------------------------------------------------------------------------------
@@ -514,6 +555,25 @@ def time_enumerated(tier='quick'):
     T('spec-then-try', "sleep(ord(x) ?? 2); try { !truth_is_defeat(y > 0); write('b'); } stop { write('s'); } sleep(ord(y) ?? 4); write('.');")
     # you-calls
     T('you-chain', "@a(x); @a(y); write('.');", extra="empty @a(int v) { try { !d0(v); write('n'); } stop { write('s'); @b(v); } }\nempty @b(int v) { try { !truth_is_defeat(v > 3); write('m'); } undo { write('u'); } }\n")
+    # every shape of a !truth_is_defeat argument (each has its own lowering: comparison, or-chain, constant, negation peeled off,
+    # int-to-bool, general bool value) under real and virtualised defeat, directly and inside a defeat function
+    DFORMS = ['not (x < 1)', 'not (x >= y)', 'x > 0 or y > 5', 'not (x < 1 or y > 5)', 'x is bool', 'not (x is bool)', 'bt', 'not bt', 'x > 0 and y > 0',
+              'not (x > 0 and y > 0)', '(x > 0) == (y > 0)', 'x != 0', 'pos(x)', 'not pos(y)', 'not (not (x > y))', 'x - y', 'not ((x - y) is bool)', "gb == 'k' or x == y"]
+    for i, form in enumerate(DFORMS):
+        for h in ('undo', 'stop'):
+            T('dform-%d-direct-%s' % (i, h), "bool bt = x > y; try { write('a'); !truth_is_defeat(%s); write('b'); } %s { write('c'); } write('.');" % (form if form != 'x - y' else '(x - y) is bool', h),
+              extra="byte gb = 'k';\nbool pos(int v) { return v > 0; }\n")
+            T('dform-%d-callee-%s' % (i, h), "try { write('a'); !df(x, y); write('b'); } %s { write('c'); } write('.');" % h,
+              extra="byte gb = 'k';\nbool pos(int v) { return v > 0; }\nempty !df(int x, int y) { bool bt = x > y; write('d'); !truth_is_defeat(%s); write('e'); }\n" % (form if form != 'x - y' else '(x - y) is bool'))
+    # a try inside a handler (every pairing of kinds), both bodies defeated, followed by a try that reaches defeat through a defeat function:
+    # the defeat target the inner handler restores must be the one that was current when the inner try was entered
+    for h1, h2, h3 in itertools.product(('undo', 'stop'), repeat=3):
+        T('handler-nest-%s-%s-then-%s' % (h1, h2, h3),
+          "try { write('a'); !truth_is_defeat(x > 0); write('b'); } %s { write('h'); try { write('A'); !truth_is_defeat(y > 0); write('B'); } %s { write('H'); } write('i'); } "
+          "try { write('t'); !d0(x + y); write('n'); } %s { write('u'); } write('.');" % (h1, h2, h3))
+    T('handler-nest-three-deep', "try { !truth_is_defeat(x > 0); write('b'); } stop { write('1'); try { !d0(y); write('B'); } stop { write('2'); try { !truth_is_defeat(x > y); write('C'); } stop { write('3'); } write('j'); } write('i'); } "
+      "try { write('t'); !d1(x); write('n'); } undo { write('u'); } try { write('T'); !d0(y); write('N'); } stop { write('S'); } write('.');")
+    T('handler-nest-in-loop', "for (int k = 0; k < 2; k += 1) { try { !truth_is_defeat(x > k); write('b'); } stop { write('h'); try { !d0(y + k); write('B'); } stop { write('H'); } } try { write('t'); !d0(x + k); write('n'); } undo { write('u'); } } write('.');")
     return out
 
 
